@@ -8,7 +8,8 @@
    is the classic version vector; [repr h S] says vector h lists exactly the newest version per source of
    S (nothing invented, nothing lost) and is well-formed ([wf]: no source twice). *)
 From SG Require Import Base.Prelude C10.AMap C10.HLV C10.HLVProofs C10.HLVOps C10.Replica C10.ReplicaProofs
-                       C10.HLVCodec C10.HLVCodecProofs C10.HLVWire.
+                       C10.HLVCodec C10.HLVCodecProofs C10.HLVWire
+                       C10.HLVUpdate C10.ReplicaAll C10.HLVCompact C10.HLVJson C10.HLVLegacy.
 Open Scope N_scope.
 
 (* ---- the conflict predicate against version vectors, for any two vectors representing seen sets ---- *)
@@ -129,6 +130,213 @@ Theorem C10_wire_parse_wellformed : forall str v lg, extract_hlv str = Some (v, 
 Proof. exact wire_parse_wellformed. Qed.
 Print Assumptions C10_wire_parse_wellformed.
 
+(* ==================================================================================================
+   Deepening round.
+   ================================================================================================== *)
+
+(* ---- UpdateWithIncomingHLV in general (HLVUpdate.v).  [keptb hl hi p]: the local version p is known to the
+        incoming vector hi, or its source is not blocked in hi (not the source of hi's cv, not a source of
+        hi's merge versions -- unless a newer local MERGE version made UpdateHistory invalidate them). ---- *)
+
+(* for ANY two vectors representing seen sets, whatever the conflict predicate said: the result represents the
+   incoming set plus the local versions that are kept; the other local versions are really lost; the cv is
+   the incoming one; no value of the incoming vector is lowered *)
+Theorem C10_update_general : forall hl hi Sl Si, good Sl -> good Si -> repr hl Sl -> repr hi Si ->
+  let h' := update_with_incoming hl hi in
+  repr h' (Si ++ filter (keptb hl hi) Sl) /\
+  cv h' = cv hi /\
+  (forall p, In p Sl -> keptb hl hi p = false -> dominates h' p = false) /\
+  (forall s, value hi s <= value h' s).
+Proof. exact update_general. Qed.
+Print Assumptions C10_update_general.
+
+(* nothing is lost exactly when every local version is kept *)
+Theorem C10_update_nothing_lost_iff : forall hl hi Sl Si, good Sl -> good Si -> repr hl Sl -> repr hi Si ->
+  (repr (update_with_incoming hl hi) (Sl ++ Si) <-> forall p, In p Sl -> keptb hl hi p = true).
+Proof. exact update_nothing_lost_iff. Qed.
+Print Assumptions C10_update_nothing_lost_iff.
+
+(* the update lemma of every accepted pull without [incl Sl Si] (C10_update_repr is the special case): it is
+   enough that the local versions under the blocked sources of hi are known to hi.  That "hi dominates the
+   local cv" alone is NOT enough for arbitrary sets is shown in C10_Refuted.v
+   (update_repr_dominating_only_refuted); in every reachable state of a clean history it is
+   (C10_history_fast_forward_lossless). *)
+Theorem C10_update_repr_noconflict : forall hl hi Sl Si, good Sl -> good Si -> repr hl Sl -> repr hi Si ->
+  (forall p, In p Sl -> merge_blocked hi (fst p) = true -> dominates hi p = true) ->
+  repr (update_with_incoming hl hi) (Sl ++ Si) /\
+  cv (update_with_incoming hl hi) = cv hi /\
+  (forall s, value hl s <= value (update_with_incoming hl hi) s) /\
+  (forall s, value hi s <= value (update_with_incoming hl hi) s).
+Proof. exact update_repr_noconflict. Qed.
+Print Assumptions C10_update_repr_noconflict.
+
+(* THE LOSS OF A SAME-MERGE ACCEPTANCE, exactly: the result keeps the incoming cv and merge versions and records
+   the incoming set plus the local versions known to the incoming vector or of a source that is neither the
+   source of the incoming cv nor one of the common merge versions; every other local version is lost *)
+Theorem C10_same_merge_loss : forall hl hi Sl Si, good Sl -> good Si -> repr hl Sl -> repr hi Si ->
+  same_merge hl hi = true ->
+  let h' := update_with_incoming hl hi in
+  let kept := fun p => dominates hi p || negb (merge_blocked hi (fst p)) in
+  repr h' (Si ++ filter kept Sl) /\
+  cv h' = cv hi /\ mv h' = mv hi /\
+  (forall p, In p Sl -> kept p = false -> dominates h' p = false).
+Proof. exact same_merge_loss. Qed.
+Print Assumptions C10_same_merge_loss.
+
+(* in particular the local current version survives iff its source is not blocked (the known finding
+   same-merge-accept-drops-local-version is the case "blocked") *)
+Theorem C10_same_merge_local_cv : forall hl hi Sl Si, good Sl -> good Si -> repr hl Sl -> repr hi Si ->
+  same_merge hl hi = true -> dominates hi (cv hl) = false ->
+  (dominates (update_with_incoming hl hi) (cv hl) = false <-> merge_blocked hi (src hl) = true).
+Proof. exact same_merge_local_cv. Qed.
+Print Assumptions C10_same_merge_local_cv.
+
+(* ---- ALL histories (ReplicaAll.v): [rec_run evs r] is the set of versions the vector of replica r records,
+        maintained event by event with the loss of every accepted pull given by [keptb] ---- *)
+Theorem C10_history_repr_all : forall evs r,
+  good (rec_run evs r) /\ incl (rec_run evs r) (rseen (run evs r)) /\
+  (src (rh (run evs r)) <> 0 -> repr (rh (run evs r)) (rec_run evs r)).
+Proof. intros evs r. destruct (history_repr_all evs r) as [A B _ D]. auto. Qed.
+Print Assumptions C10_history_repr_all.
+
+Theorem C10_history_no_errors_all : forall evs,
+  ~ In OEditError (outcomes_from init evs) /\ ~ In OMergeError (outcomes_from init evs).
+Proof. exact history_no_errors_all. Qed.
+Print Assumptions C10_history_no_errors_all.
+
+Theorem C10_history_conflict_all : forall evs r q,
+  src (rh (run evs r)) <> 0 -> src (rh (run evs q)) <> 0 ->
+  let hl := rh (run evs r) in let hi := rh (run evs q) in
+  (is_in_conflict hl hi = Conflict <->
+   ~ seenV (rec_run evs r) (cv hi) /\ ~ seenV (rec_run evs q) (cv hl) /\ same_merge hl hi = false).
+Proof. exact history_conflict_all. Qed.
+Print Assumptions C10_history_conflict_all.
+
+(* in every history a generated version is above the floor and above every version of the source that the
+   replica's own vector still records (against the versions really seen this needs [clean]:
+   C10_local_versions_increase, and is refuted without it: C10_Refuted.v local_versions_increase_full_refuted) *)
+Theorem C10_local_versions_increase_all : forall evs e r v,
+  generated e (snd (step (run evs) e)) = Some (r, v) ->
+  max_value_for_source (rh (run evs r)) r < v /\ (forall x, In (r, x) (rec_run evs r) -> x < v).
+Proof. intros evs e r v. exact (generated_versions_new_all (run evs) (rec_run evs) e r v (history_repr_all evs)). Qed.
+Print Assumptions C10_local_versions_increase_all.
+
+(* in a clean history recorded = seen: C10_history_repr_all specialises to C10_history_repr_partial *)
+Theorem C10_history_clean_records_all : forall evs, clean evs ->
+  forall r p, In p (rec_run evs r) <-> In p (rseen (run evs r)).
+Proof. exact clean_records_all. Qed.
+Print Assumptions C10_history_clean_records_all.
+
+(* every pull of a reachable state of a clean history that the conflict predicate accepts because the
+   incoming vector dominates the local cv (i.e. every acceptance other than by the same-merge rule) loses nothing *)
+Theorem C10_history_fast_forward_lossless : forall evs r q, clean evs ->
+  src (rh (run evs r)) <> 0 -> src (rh (run evs q)) <> 0 ->
+  dominates (rh (run evs q)) (cv (rh (run evs r))) = true ->
+  let hl := rh (run evs r) in let hi := rh (run evs q) in
+  update_with_incoming hl hi = hi /\
+  repr (update_with_incoming hl hi) (rseen (run evs r) ++ rseen (run evs q)).
+Proof. exact history_fast_forward_lossless. Qed.
+Print Assumptions C10_history_fast_forward_lossless.
+
+(* ---- Compact (HLVCompact.v): for every possible result h' of compactWithValue(c) on h ([compact_okb]: the order
+        among candidates of equal value is not determined by the code) ---- *)
+Theorem C10_compact_keeps_cv_mv : forall h c h', compact_okb h c h' = true ->
+  cv h' = cv h /\ mv h' = mv h /\ pruned h h' /\ NoDup (keys (pv h')).
+Proof. exact compact_keeps_cv_mv. Qed.
+Print Assumptions C10_compact_keeps_cv_mv.
+
+Theorem C10_compact_retains : forall h c h', compact_okb h c h' = true ->
+  N.min (len (pv h)) min_retained <= len (pv h') /\
+  (compact_noop h c = true -> len (pv h') = len (pv h)) /\
+  (NoDup (keys (pv h)) -> forall x v, lookup (pv h) x = Some v -> c <= v -> lookup (pv h') x = Some v).
+Proof. exact compact_retains. Qed.
+Print Assumptions C10_compact_retains.
+
+Theorem C10_compact_oldest_first : forall h c h', compact_okb h c h' = true -> forall x v y w,
+  lookup (pv h) x = Some v -> lookup (pv h') x = None ->
+  In (y, w) (pv h) -> w < c -> mem (pv h') y = true -> v <= w.
+Proof. exact compact_oldest_first. Qed.
+Print Assumptions C10_compact_oldest_first.
+
+(* the deterministic model function is one of the admitted results *)
+Theorem C10_compact_function_admitted : forall h c, NoDup (keys (pv h)) -> compact_okb h c (compact_with_value h c) = true.
+Proof. exact compact_fun_ok. Qed.
+Print Assumptions C10_compact_function_admitted.
+
+(* COMPACTION IS SOUND: pruning previous versions of the local vector, of the incoming one or of both never
+   turns a pair in conflict into an accepted (or already known) one ... *)
+Theorem C10_compact_sound : forall hl hl' hi hi', pruned hl hl' -> pruned hi hi' ->
+  is_in_conflict hl hi = Conflict -> is_in_conflict hl' hi' = Conflict.
+Proof. exact compact_sound. Qed.
+Print Assumptions C10_compact_sound.
+
+Theorem C10_compact_accept_sound : forall hl hl' hi hi', pruned hl hl' -> pruned hi hi' ->
+  is_in_conflict hl' hi' = NoConflict ->
+  is_in_conflict hl hi = NoConflict \/ is_in_conflict hl hi = AlreadyPresent.
+Proof. exact compact_accept_sound. Qed.
+Print Assumptions C10_compact_accept_sound.
+
+(* ... it is not complete, by design: a known or a fast-forward pair may become a conflict, and a known
+   revision may even be accepted again through the same-merge rule (C10_Refuted.v, "by design") *)
+
+(* what compaction loses against the seen set: exactly the versions of the pruned sources *)
+Theorem C10_compact_repr : forall h h' S, pruned h h' -> NoDup (keys (pv h')) -> good S -> repr h S ->
+  let kept := fun p : version => negb (mem (pv h) (fst p)) || mem (pv h') (fst p) in
+  repr h' (filter kept S) /\
+  (forall p, In p S -> kept p = false -> dominates h' p = false).
+Proof. exact compact_repr. Qed.
+Print Assumptions C10_compact_repr.
+
+(* ---- the stored BYTES (HLVJson.v): [marshal_bytes] is the text encoding/json writes for the fields ---- *)
+Theorem C10_json_bytes_roundtrip : forall v j out, storable v -> check_marshal_bytes v j out = true ->
+  exists v', unmarshal_bytes out = Some v' /\ svec_equiv v' v.
+Proof. exact json_bytes_roundtrip. Qed.
+Print Assumptions C10_json_bytes_roundtrip.
+
+Theorem C10_stored_bytes_determine_fields : forall j, parse_bytes (marshal_bytes j) = Some j.
+Proof. exact parse_marshal_bytes. Qed.
+Print Assumptions C10_stored_bytes_determine_fields.
+
+Theorem C10_cas_string_shape : forall v,
+  exists ds, cas_to_string v = 48 :: 120 :: ds /\ length ds = 16%nat /\ Forall lower_hex ds.
+Proof. exact cas_string_shape. Qed.
+Print Assumptions C10_cas_string_shape.
+
+Theorem C10_delta_hex_shape : forall v,
+  le_hex_strip v <> [] /\ Forall lower_hex (le_hex_strip v) /\
+  (length (le_hex_strip v) = 1%nat \/ last (le_hex_strip v) 0 <> 48).
+Proof. exact delta_hex_shape. Qed.
+Print Assumptions C10_delta_hex_shape.
+
+(* ---- legacy revision ids (HLVLegacy.v) ---- *)
+Theorem C10_legacy_generation_roundtrip : forall rev g d gen v,
+  cut rev DASH = Some (g, d) -> canonical_gen g = Some gen -> legacy_rev_to_version rev = Some v ->
+  gen < two24 -> generation_of v = gen.
+Proof. exact legacy_generation_roundtrip. Qed.
+Print Assumptions C10_legacy_generation_roundtrip.
+
+Theorem C10_legacy_order_by_generation : forall rev1 g1 d1 gen1 v1 rev2 g2 d2 gen2 v2,
+  cut rev1 DASH = Some (g1, d1) -> canonical_gen g1 = Some gen1 -> legacy_rev_to_version rev1 = Some v1 ->
+  cut rev2 DASH = Some (g2, d2) -> canonical_gen g2 = Some gen2 -> legacy_rev_to_version rev2 = Some v2 ->
+  gen1 < gen2 -> gen2 < two24 -> v1 < v2.
+Proof. exact legacy_order_by_generation. Qed.
+Print Assumptions C10_legacy_order_by_generation.
+
+(* the rev message built for a peer that holds a legacy revision.  PARTIAL: for vectors without merge versions or
+   with at least one previous version.  The statement for all sendable vectors,
+   [C10_wire_legacy_full_statement], is REFUTED for the unchanged code (C10_Refuted.v
+   wire_legacy_mv_only_refuted, monitor signature wire-legacy-mv-only-history-rejected): toHistoryForHLV ends the
+   merge versions with ';' even when no previous version follows, the sender then appends ",revID,..." and
+   the receiver finds an empty entry in the pv section. *)
+Definition C10_wire_legacy_full_statement : Prop := forall v lg, sendable v -> lg <> [] -> (forall x, In x lg -> legacy_ok x) ->
+  exists v', extract_hlv (wire_join (cv_string v) (history_legacy v lg)) = Some (v', lg) /\ svec_equiv v' (wire_view v).
+
+Theorem C10_wire_legacy_roundtrip_partial : forall v lg, sendable v -> lg <> [] -> (forall x, In x lg -> legacy_ok x) ->
+  (s_mv v = [] \/ s_pv v <> []) ->
+  exists v', extract_hlv (wire_join (cv_string v) (history_legacy v lg)) = Some (v', lg) /\ svec_equiv v' (wire_view v).
+Proof. exact wire_legacy_roundtrip. Qed.
+Print Assumptions C10_wire_legacy_roundtrip_partial.
+
 (* ---- non-vacuity: a concrete clean history with a conflict, a merge, a fast-forward and an
         already-known pull; its vectors satisfy the hypotheses of the theorems above ---- *)
 Example C10_nonvacuous :
@@ -143,4 +351,29 @@ Proof.
   - vm_compute. reflexivity.
   - vm_compute. discriminate.
   - vm_compute. reflexivity.
+Qed.
+
+(* ---- non-vacuity of the deepening round: the history of the known finding (both sides merge the same
+        conflict, then replica 1 pulls replica 2's merge): the pull is accepted on the same-merge rule, the
+        recorded set of replica 1 is its seen set minus exactly its own version 2@1, and its vector represents
+        it; a compaction that removes the three oldest of six previous versions (four are candidates, three must stay); the bytes of a stored vector ---- *)
+Example C10_nonvacuous_deep :
+  let evs := [EEdit 1 0; EEdit 2 0; EPull 3 1 0; EPull 1 2 0; EPull 2 3 0; EPull 1 2 0] in
+  last (outcomes_from init evs) ONone = OSameMerge /\
+  In (1, 2) (rseen (run evs 1)) /\ ~ In (1, 2) (rec_run evs 1) /\
+  (forall p, In p (rseen (run evs 1)) -> p <> (1, 2) -> In p (rec_run evs 1)) /\
+  repr (rh (run evs 1)) (rec_run evs 1) /\
+  compact_with_value (mkH 1 9 [] [(2, 5); (3, 1); (4, 7); (5, 2); (6, 3); (7, 9)]) 6 = mkH 1 9 [] [(2, 5); (4, 7); (7, 9)] /\
+  marshal_bytes (mkJ None [97] (cas_to_string 1) (Some [le_hex_strip 1 ++ [64; 98]]) None) =
+    [123;34;115;114;99;34;58;34;97;34;44;34;118;101;114;34;58;34;48;120;48;49;48;48;48;48;48;48;48;48;48;48;48;48;48;48;34;44;
+     34;112;118;34;58;91;34;48;49;64;98;34;93;125].
+  (* {"src":"a","ver":"0x0100000000000000","pv":["01@b"]} *)
+Proof.
+  cbn zeta. split; [vm_compute; reflexivity|]. split; [vm_compute; tauto|]. split.
+  { vm_compute. intros H. repeat (destruct H as [H|H]; [discriminate H|]). exact H. }
+  split.
+  { intros p I N. vm_compute in I. vm_compute.
+    repeat (destruct I as [I|I]; [subst p; try tauto; try (exfalso; apply N; reflexivity)|]); try tauto. }
+  split; [|split; vm_compute; reflexivity].
+  apply C10_history_repr_all. vm_compute. discriminate.
 Qed.
